@@ -780,7 +780,7 @@ impl Monitor for Stake {
         "cwv-app"
     }
     fn histories(&self, tier: Tier) -> u64 {
-        tier.pick(160, 96_000)
+        tier.pick(1_000, 96_000)
     }
     fn mandatory(&self) -> Vec<&'static str> {
         vec![
